@@ -25,13 +25,14 @@ type evt struct {
 
 // evReader serves a scripted sequence of read events; Eof and Fail are sticky.
 type evReader struct {
-	evs    []evt
-	cur    []byte
-	loaded bool
-	closed int
-	reads  int
-	cid    string
-	ctx    context.Context // the context of the ContainerLogs request: like the real client's body, the stream dies with it
+	evs      []evt
+	cur      []byte
+	loaded   bool
+	closed   int
+	reads    int
+	cid      string
+	closeErr bool
+	ctx      context.Context // the context of the ContainerLogs request: like the real client's body, the stream dies with it
 }
 
 func (r *evReader) Read(p []byte) (int, error) {
@@ -67,7 +68,14 @@ func (r *evReader) Read(p []byte) (int, error) {
 	}
 }
 
-func (r *evReader) Close() error { r.closed++; return nil }
+// Close counts; a reader may report an error on Close (a connection that was reset): it is closed all the same, and so must the others be
+func (r *evReader) Close() error {
+	r.closed++
+	if r.closeErr {
+		return errors.New("verif: injected close failure")
+	}
+	return nil
+}
 
 func classifyStreamErr(err error) string {
 	if err == nil {
